@@ -85,15 +85,35 @@ class Template:
         self.repo = repo
         self.wid = wid
         self.hashseed = os.environ.get("PYTHONHASHSEED", "random")
+        self.pad = int(os.environ.get("VERIF_HEAP_PAD", "0") or 0)
         self.host = "%d.%d.%d" % sys.version_info[:3]
         self.handlers = {}
 
     def ident(self):
-        return {"host": self.host, "hashseed": self.hashseed, "exe": sys.executable}
+        return {"host": self.host, "hashseed": self.hashseed, "exe": sys.executable, "pad": self.pad,
+                "aslr_disabled": _aslr_disabled()}
+
+
+_HEAP_PAD = []
+
+
+def _aslr_disabled() -> bool:
+    try:
+        with open("/proc/self/personality") as f:
+            return bool(int(f.read().strip(), 16) & 0x0040000)
+    except (OSError, ValueError):
+        return False
 
 
 def main(argv=None):
     argv = list(sys.argv[1:] if argv is None else argv)
+    # heap-offset knob: shifts the addresses of everything allocated later (deterministically,
+    # ASLR being off), so that id()-ordered containers are perturbed between templates
+    n_pad = int(os.environ.get("VERIF_HEAP_PAD", "0") or 0)
+    for i in range(n_pad):
+        _HEAP_PAD.append(bytearray(i % 509))
+        _HEAP_PAD.append([None] * (i % 37))
+        _HEAP_PAD.append({i: i} if i % 3 == 0 else (i, i))
     repo = argv[argv.index("--repo") + 1]
     wid = int(argv[argv.index("--id") + 1])
     repo = os.path.realpath(repo)
